@@ -102,6 +102,21 @@ pub fn generate_and_run(seed: u64, tier: &str, cases_w: &mut dyn Write, impl_w: 
 			st.samples.push(format!("K {id} {} {evs} => {chunks}", hex(data)));
 		}
 		id += 1;
+		// the guard of the in-memory UTF-8 path (chunker::has_document), observed through a whole translation of the slice:
+		// "no document" is a translation that succeeds and writes nothing
+		if std::str::from_utf8(data).is_ok() && xt::verif::yaml_encoding_detect(&data[..data.len().min(4)]) == 0 {
+			let evs_full = events_field(data, Sched::Full);
+			let mut out = vec![];
+			let r = catch_unwind(AssertUnwindSafe(|| xt::translate_slice(data, Some(xt::Format::Yaml), xt::Format::Json, &mut out).is_ok()));
+			let verdict = match r {
+				Err(_) => "panic",
+				Ok(true) if out.is_empty() => "nodoc",
+				Ok(_) => "doc",
+			};
+			writeln!(cases_w, "KH {id} {evs_full}").unwrap();
+			writeln!(impl_w, "{id} {verdict}").unwrap();
+			id += 1;
+		}
 	};
 	for d in DOCS {
 		one(d, "builtin", &mut st, &mut rng, cases_w, impl_w);
